@@ -476,3 +476,29 @@ func CloneVals(v []Val) []Val {
 	}
 	return out
 }
+
+// MustEncodePing encodes a PING payload (time_usec u64 = 3, seq u32, target_system,
+// target_component = 0) by the layout rules; used by scenarios to number items.
+func MustEncodePing(seq uint32, v2 bool) []byte {
+	b := make([]byte, 14)
+	b[0] = 3
+	for k := 0; k < 4; k++ {
+		b[8+k] = byte(seq >> (8 * uint(k)))
+	}
+	if v2 {
+		for len(b) > 1 && b[len(b)-1] == 0 {
+			b = b[:len(b)-1]
+		}
+	}
+	return b
+}
+
+// PingSeq extracts the seq field of a PING payload.
+func PingSeq(p []byte, v2 bool) (uint32, bool) {
+	q := make([]byte, 14)
+	if len(p) > 14 || (!v2 && len(p) != 14) {
+		return 0, false
+	}
+	copy(q, p)
+	return uint32(q[8]) | uint32(q[9])<<8 | uint32(q[10])<<16 | uint32(q[11])<<24, true
+}
